@@ -140,6 +140,8 @@ def generate(rng, tier, index):
     flav = rng.choice(ALL_FLAVOURS)
     family = weighted(rng, (("clash", 7), ("corrupt", 3)))
     style = weighted(rng, (("eager", 2), ("batched", 4), ("bursty", 2), ("split", 4)))
+    if index % 10 == 7:
+        family = "renameover"
     case = {"prop": ID, "cfg": {"flavour": flav}, "style": style, "family": family}
     mix = dict(CLASH_MIX)
     if rng.random() < 0.5:
@@ -147,6 +149,22 @@ def generate(rng, tier, index):
 
     def body(ex):
         n = rng.randint(1, 7)
+        if family == "renameover":
+            # one user deletes x and renames a synchronised file a onto the freed name while the other user has edited (or re-edits)
+            # x - the edit must survive somewhere whatever the order in which the engine learns of the three operations
+            s = rng.randrange(2)
+            names = rng.sample(["/a", "/b", "/c.txt"], 2)
+            x, a = names
+            ex.apply(["U", s, "create", x, ex.new_payload()])
+            ex.apply(["U", s, "create", a, ex.new_payload()])
+            ex.apply(["Q"])
+            todo = [["U", s, "delete", x], ["U", s, "rename", a, x]]
+            k = rng.randrange(3)
+            todo.insert(k, ["U", 1 - s, "write", x, ex.new_payload()])
+            for it in todo:
+                if ex.apply(it):
+                    sched_after_op(rng, ex, style if style != "eager" else "batched")
+            return
         if family == "corrupt":
             # synced base with at least one file, then mark it unreadable on one side, then the history
             k = rng.randint(1, 3)
